@@ -366,8 +366,12 @@ def export_slice_guards(repo: Repo, R, noret, rule: str):
         R.check(g is not None, rule, key_of(fi, key), fi.at(g) if g is not None else fi.site,
                 f"{what}: guard present and failing" if g is not None else f"{what}: no failing guard found", why=why)
     fes = repo.func(F_EXPORT, "export_slice")
-    G(fes, "slice-parent-signal", lambda t: _norm(t) == f"not isinstance({fes.node.args.args[0].arg}.parent, Signal)", "slice whose parent is not a concrete signal", "a nested slice is exported against the wrong signal")
-    G(fes, "slice-unit-step", lambda t: au.cmp_norm(t) == au.cmp_norm(ast.parse(f"{fes.node.args.args[0].arg}.step != 1", mode="eval").body), "slice with non-unit step", "a strided or reversed slice is exported as a contiguous forward range")
+    a0 = fes.node.args.args[0].arg
+    # by what happens, not by how the tests are nested: no concrete signal -> raises; a signal but a step other than 1 -> raises
+    g1 = shared.raises_under(fes.node, [(f"isinstance({a0}.parent, Signal)", False)], noret)
+    R.check(g1, rule, key_of(fes, "slice-parent-signal"), fes.site, "slice whose parent is not a concrete signal: " + ("guard present and failing" if g1 else "no failing guard found"), why="a nested slice is exported against the wrong signal")
+    g2 = shared.raises_under(fes.node, [(f"isinstance({a0}.parent, Signal)", True), (f"{a0}.step == 1", False)], noret)
+    R.check(g2, rule, key_of(fes, "slice-unit-step"), fes.site, "slice with non-unit step: " + ("guard present and failing" if g2 else "no failing guard found"), why="a strided or reversed slice is exported as a contiguous forward range")
 
 
 def guard_inventory(repo: Repo, R, noret):
